@@ -44,7 +44,8 @@ CellToFace60(G, kind, mode, v, f) ==
   LET d == AxisOf(G, f)
       a == Pick(kind, v, Lo(G, f), d)
       b == Pick(kind, v, Hi(G, f), d)
-  IN IF mode = "arithmetic" THEN 30 * (a + b) ELSE (120 * a * b) \div (a + b)
+  \* (harmonic mean of non-negative values: 0 as soon as one of the two is 0 - no transmissibility across such a face)
+  IN IF mode = "arithmetic" THEN 30 * (a + b) ELSE IF a = 0 \/ b = 0 THEN 0 ELSE (120 * a * b) \div (a + b)
 
 \* tangential reconstruction, times 4: i-th tangential direction of face f
 OtherAxes(n, d) == SetToSortedSeq(1..n \ {d})
